@@ -364,3 +364,14 @@ V('ix1-unguarded-opt', ['C07'], 'yalafi/handlers.py',
   "    out = [defs.TextToken(pos, '[0,', pos_fix=True),\n                    defs.SpaceToken(pos, ' ', pos_fix=True)]\n    out += args[0]\n    out += [defs.TextToken(args[0][-1].pos, ']'),\n                    defs.ActionToken(args[0][-1].pos)]", 'IX1')
 V('ix1-index-beyond', ['C07'], 'yalafi/handlers.py', "    arg = args[2]\n    txt = parser.get_text_expanded(arg).strip()", "    arg = args[3]\n    txt = parser.get_text_expanded(arg).strip()", 'IX1')
 V('ix2a-empty-buffer', ['C07'], P, "                if not out:\n                    out = [defs.VoidToken(pos)]\n                return scanner.Buffer(out)", "                return scanner.Buffer(out)", 'IX2a')
+
+V('ix7-finite', ['C07'], PA,
+  "                c = 'a'\n                while True:\n                    yield c + '.'\n                    c = chr(ord(c) + 1) if c != 'z' else 'a'",
+  "                for c in 'abcdefghijklmnopqrstuvwxyz':\n                    yield c + '.'", 'IX7')
+V('ix8-regex', ['C07'], 'yalafi/handlers.py',
+  "numbers = re.compile(r'\\s*(\\d+[.,]?\\d*|[.,]\\d+)')", "numbers = re.compile(r'\\s*(\\d+[.,]?\\d*|[.,]\\d*)')", 'IX8')
+V('ix8-no-guard', ['C07'], 'yalafi/handlers.py',
+  "    nargs = int(nargs) if nargs.isdecimal() else 0", "    nargs = int(nargs) if nargs else 0", 'IX8')
+V('ix9-inline-lang', ['C07'], T2,
+  "    main_lang = opts.lang or ''\n    ml = utils.get_txt_pos_ml(toks, main_lang, parms)\n    if opts.repl and main_lang in ml:\n        for part in ml[main_lang]:",
+  "    ml = utils.get_txt_pos_ml(toks, opts.lang, parms)\n    if opts.repl and opts.lang in ml:\n        for part in ml[opts.lang]:", 'IX9')
